@@ -69,6 +69,23 @@ func (sc *Scope) call(e ECall) Val {
 	case "math":
 		argN(1)
 		return sc.mathOf(sc.eval(e.Args[0]))
+	case "abytes":
+		// abytes(a): the content of the byte array variable/field a as a byte string (what a[:] denotes)
+		argN(1)
+		loc, ty := sc.lvalue(e.Args[0])
+		n, ok := isByteArray(ty)
+		if !ok {
+			sc.fail("abytes needs a byte array location")
+		}
+		return Val{T: x.bstrOf(sc.st, sx("mk_slice", loc, c.idx(0), c.idx(int64(n)), c.idx(int64(n)))), Ty: types.Typ[types.String]}
+	case "lastnow":
+		// lastnow(): the value returned by the most recent time.Now() call on this path
+		argN(0)
+		tt := x.timeType()
+		if tt == nil {
+			sc.fail("lastnow: package time is not loaded")
+		}
+		return Val{T: x.get(sc.st, "g:lastnow|"+c.sortOf(tt)), Ty: tt}
 	case "ult", "ule", "ugt", "uge", "slt", "sle":
 		argN(2)
 		a, b := sc.unify(sc.eval(e.Args[0]), sc.eval(e.Args[1]))
